@@ -25,10 +25,36 @@ DecodeVerdict(e) ==
   ELSE IF e.redata # e.bytes THEN "reencode-differs"
   ELSE IF ~e.input_same THEN "input-modified"
   ELSE ""
+\* the value of the last call of setter f in the builder history (<<>> if never called)
+RECURSIVE LastArg(_, _, _)
+LastArg(calls, f, i) == IF i = 0 THEN <<>> ELSE IF calls[i].f = f THEN <<calls[i]>> ELSE LastArg(calls, f, i - 1)
+\* a flag whose most recent setter call was (true) must read true afterwards (the API cannot clear a flag; what a
+\* call with false does is not constrained)
+FlagSet(calls, f) == LET c == LastArg(calls, f, Len(calls)) IN c # <<>> /\ c[1].b
+\* the extension flag must already be set when the partition flag is requested (as the API documents by its guard)
+PartitionRequested(calls) ==
+  LET p == LastArg(calls, "SetPartitionFlag", Len(calls)) IN
+  p # <<>> /\ p[1].b /\ \E i \in 1..Len(calls) : calls[i].f = "SetExtensionFlag" /\ calls[i].b
+                              /\ \E j \in (i + 1)..Len(calls) : calls[j].f = "SetPartitionFlag" /\ calls[j].b
+IntendedNotReflected(e) ==
+  LET c == e.calls  g == e.g1 IN
+  IF FlagSet(c, "SetFragmentFlag") /\ ~g.frag THEN "fragment-flag"
+  ELSE IF FlagSet(c, "SetSegmentFlag") /\ ~g.seg THEN "segment-flag"
+  ELSE IF FlagSet(c, "SetSapFlag") /\ ~g.sapflag THEN "sap-flag"
+  ELSE IF FlagSet(c, "SetGroupingFlag") /\ ~g.grouping THEN "grouping-flag"
+  ELSE IF FlagSet(c, "SetTimeFlag") /\ ~g.timeflag THEN "time-flag"
+  ELSE IF FlagSet(c, "SetExtensionFlag") /\ ~g.extflag THEN "extension-flag"
+  ELSE IF FlagSet(c, "SetDiscOrConcealment") /\ ~g.disc THEN "discontinuity-or-concealment-flag"
+  ELSE IF e.cablelabs /\ PartitionRequested(c) /\ ~g.partition THEN "partition-flag"
+  ELSE IF LastArg(c, "SetSap", Len(c)) # <<>> /\ g.sap # LastArg(c, "SetSap", Len(c))[1].v THEN "sap-type"
+  ELSE IF LastArg(c, "SetEBPTime", Len(c)) # <<>>
+          /\ ~Within1ns(TotalNs(LastArg(c, "SetEBPTime", Len(c))[1].secs, LastArg(c, "SetEBPTime", Len(c))[1].ns), TotalNs(g.t_secs, g.t_ns)) THEN "time"
+  ELSE ""
 BuildVerdict(e) ==
   LET b == e.bytes IN
   IF Len(b) < 3 THEN "build-too-short"
   ELSE IF b[2] # Len(b) - 2 THEN "build-length-byte"
+  ELSE IF IntendedNotReflected(e) # "" THEN "build-setter-not-reflected-" \o IntendedNotReflected(e)
   ELSE LET p == Parse(b) IN
   IF ~p.ok THEN "build-not-wellformed"
   ELSE IF e.err2 THEN "build-own-encoding-rejected"
